@@ -21,6 +21,7 @@ type Op struct {
 	Rm    string         `json:"rm,omitempty"`  // restart: which index files to delete ("", all, hash, s, m, rand:<seed>)
 	Sel   uint64         `json:"sel,omitempty"` // gc: picks one of the legal ranges at run time
 	Merge bool           `json:"merge,omitempty"`
+	Pref  string         `json:"pref,omitempty"` // gc: preferred kind of range: "", "low" (begins at the first file), "high" (does not begin at the first file)
 	// restart: also reopen the same closed directory once per index-file subset
 	// ("" none, "sample", "exhaustive") and compare every variant with the model
 	Variants string `json:"variants,omitempty"`
@@ -56,7 +57,7 @@ type SUT interface {
 	Restart(rm string) (removed []string, err error)
 	// GC runs one pass over a legal range selected by sel; ran=false when the
 	// store has no legal range.
-	GC(sel uint64, merge bool) (info string, ran bool, err error)
+	GC(sel uint64, merge bool, pref string) (info string, ran bool, err error)
 	// Info classifies where the key's current record lives (observed, not assumed).
 	Info(key string) (residence string, compressed bool)
 }
